@@ -9,7 +9,8 @@ use std::cell::RefCell;
 
 #[cfg(feature = "cloud")]
 pub use crate::server::cloud::verif_store::{
-    cloud_server, set_draws, CloudHandle, Cryptor, ObjectStore, StoreFault, StoreRequest,
+    cloud_server, cloud_server_new, set_draws, CloudHandle, Cryptor, ObjectStore, StoreFault,
+    StoreRequest,
 };
 
 /// What a failpoint does when it is hit.
